@@ -246,9 +246,10 @@ def run_case(g, idx, budget, tap, res):
     state = {"best_rots": []}
 
     def bad(mech, msg):
-        # classifier: rows are vertical (rotation exactly -90 deg) and the lot has a vertical edge, so the first/last row lies on an edge
+        # classifier: rows are vertical (rotation -90 deg, or a window whose steps accumulate to 90 deg minus one ulp) and the lot has a vertical
+        # edge, so the first/last row lies on an edge
         if mech in ("boreholes-closer-than-target-spacing", "translation-not-rigid", "translation-changes-borehole-count", "returned-field-is-not-the-best-rotation") and has_vertical_edge and any(
-            abs(r + math.pi / 2) < 1e-12 for r in state["best_rots"]
+            abs(abs(r) - math.pi / 2) < 1e-12 for r in state["best_rots"]
         ):
             mech = mech + ":vertical-rows-on-a-vertical-edge"
         out.append({"mechanism": mech, "message": msg, "case": {**case, "best_rotations_deg": [r / DEG for r in state["best_rots"]]}})
